@@ -9,7 +9,7 @@ IsEvent(e) == l <= Len(TraceLog) /\ TraceLog[l].e = e /\ l' = l + 1
 Range(f) == {f[x] : x \in DOMAIN f}
 FnOf(ps) == [n \in {ps[i][1] : i \in DOMAIN ps} |-> ps[CHOOSE i \in DOMAIN ps : ps[i][1] = n][2]]
 PairsOf(f) == {<<n, f[n]>> : n \in DOMAIN f}
-OpOf(o) == IF o.op = "SAVE" THEN o ELSE [o EXCEPT !.mn = FnOf(o.mn)]
+OpOf(o) == IF o.op \in {"SAVE", "RPTRSTI", "RPTSCHEDI"} THEN o ELSE [o EXCEPT !.mn = FnOf(o.mn)]
 Ops(os) == [i \in DOMAIN os |-> OpOf(os[i])]
 TInit == l = 1 /\ k = 0 /\ cfg = Cfg0 /\ events = {} /\ saves = {} /\ ym = <<0>> /\ decided = Empty /\ nkw = 0 /\ hist = [blocks |-> <<>>, cur |-> <<>>]
 TReset == IsEvent("Reset") /\ UNCHANGED vars
